@@ -12,7 +12,8 @@ EXPLANATION = ("R08.1 decision table of RollState::rotation_necessary (and of th
                "iff appending, for both size-bearing criteria; R08.6 closed set of writers of current_size. R08.4: the reset follows the writer swap on every path, before any later fallible step. R08.7 one sink call per record, line ending included (emission table shared with R01.1): the rotation decision is per sink call."
                " R08.5 also: in StateHandle::reset nothing opens a log file or reads its length before the old state (whose BufWriter may hold bytes of the same file) has been replaced."
                " R08.8 criterion wiring: the Criterion given to rotate()/o_rotate() reaches the rotation configuration of the state unchanged (shared configuration-wiring tables, rules/cfgwiring.py)."
-               " R08.9 (shared with R01.6/R06.4): a rotation switches to ANOTHER file - every timestamp name a rotation opens passes the collision check, so the size counter is never reset while the same file is continued.")
+               " R08.9 (shared with R01.6/R06.4): a rotation switches to ANOTHER file - every timestamp name a rotation opens passes the collision check, so the size counter is never reset while the same file is continued."
+               " R08.10 (shared with R09.7): only the record sink and the explicit rotation request ask for the rotation decision.")
 ASSUMPTIONS = ["accounted size = bytes handed to write_all (BufWriter/OS semantics are not modelled)",
                "u64 counters do not overflow (16 EiB)"]
 NOT_DECIDED = ["accounted size equals on-disk size (external writers, partial failed writes)", "when buffered bytes reach the disk"]
@@ -126,6 +127,10 @@ def run(R, ctx):
     R.rule('R08.9', 'a rotation switches to another file: every timestamp name opened by a rotation passes the collision check (shared with R01.6)')
     import c01 as _c01r
     _c01r.collision_rules(Relabel(R, {'R01.6': 'R08.9'}), ctx)
+    # the size criterion is examined when a record arrives, never by a flush / timer (who-may-call rule shared with R09.7)
+    R.rule('R08.10', 'WHO-MAY-CALL(rotation decision) = record sink + explicit rotation request (shared with R09.7)')
+    import c09 as _c09w
+    _c09w.who_triggers_rotation(R, ctx, rule='R08.10')
     f, cg = ctx.f, ctx.cg
     R.rule('R08.1', 'TABLE(rotation decision) for Size and the size part of AgeOrSize; guard of the rotation = force or rotation_necessary')
     R.rule('R08.2', 'ORDER/GUARDED-EFFECT in the record sink: decide -> write_all -> increase_size(len of the written slice) on Ok only')
